@@ -1,6 +1,6 @@
 (* C02 - templates see exactly the variables established by earlier tasks. Pinned statements only. *)
 From Coq Require Import List String Bool.
-From RashV Require Import Engine EngineProofs.
+From RashV Require Import Engine EngineProofs EnvModel.
 Import ListNotations.
 
 Theorem C02_set_vars_latest_write_wins : forall l st k,
@@ -63,3 +63,9 @@ Theorem C02_include_writes_persist_refuted_K4 :
   fst (run0 mirror_quirks [("inc"%string, Some inc)] ts) = [EvOut ""; EvOut ""; EvOut "old"] /\
   fst (run0 spec_quirks [("inc"%string, Some inc)] ts) = [EvOut ""; EvOut ""; EvOut "new"].
 Proof. exact K4_refuted. Qed.
+
+(* -e KEY=VALUE: the last override wins, other variables are untouched; child commands inherit the
+   same process environment (vars/env.rs sets the variables in the process before reading them back) *)
+Theorem C02_env_override : forall pairs e k,
+  elookup (env_load pairs e) k = match last_pair pairs k with Some v => Some v | None => elookup e k end.
+Proof. exact env_override. Qed.
